@@ -15,6 +15,7 @@
 -/
 import Jawk.Lemmas.RoundTrip
 import Jawk.Lemmas.F64RoundTrip
+import Jawk.Lemmas.ParseSer
 namespace Jawk.C02
 open Jawk RT
 
@@ -53,6 +54,20 @@ theorem float_display_parses (f : F64) (s : Bool) (m : Nat) (e : Int) (t : List 
 /-- … and has the shape of a JSON number without exponent -/
 theorem float_display_shape (s : Bool) (m : Nat) (e : Int) (t : List Char)
     (ht : F64.toDisplay? (.fin s m e) = some t) : F64RT.DecimalShape t := F64RT.toDisplay_shape ht
+
+/-- the float hypothesis of `Printable` is discharged for every double that can occur in a value: a non-zero
+double that `From<f64>` keeps as a float and for which the digit search returns — no further assumption -/
+theorem float_hypothesis_discharged {f : F64} {s : Bool} {m : Nat} {e : Int} {t : List Char}
+    (hf : f = .fin s m e) (hm : m ≠ 0) (hstay : Num.ofF64 f = .flt f) (ht : F64.toDisplay? f = some t) :
+    FloatRT f := Ser.floatRT_of_display hf hm hstay ht
+
+/-- closing the loop (the fixpoint at the value level): whatever was read from ANY conforming text is printable,
+and its printed text (any style, `--utf8-strings`) is read back as the same value — under H17 only -/
+theorem reread_what_was_read (h17 : Ser.H17) (o : JsonOpts) (ho : o.utf8Strings = true) {v : JV} {bs : List Byte}
+    (h : Ser.Ser v bs) (rest : List Byte) (hd : Delim v rest) (r : Reader)
+    (hr : Ready r (utf8 (printJson o v) ++ rest)) (fuel : Nat) (hf : fuelBound o v ≤ fuel) :
+    ∃ r', nextValue fuel r = (.ok (some (norm v)), r') ∧ Ready r' rest :=
+  Ser.print_parse_of_ser h17 o ho h rest hd r hr fuel hf
 
 /-- F3 (known finding), proved on the model: without `--utf8-strings` U+1F603 is written as `\u1f603` -/
 theorem astral_escape_has_five_digits :
